@@ -107,9 +107,11 @@ def _rule_sets():
                          known=["Id", "Name", "Note"], optional=["Note"], extra=["Zzz"], lead=["Id", "Name"]),
         "external": dict(cls=[PExt], rules=[{"id": ("Id", X.cell_int), "ext": None, "name": ("Name", X.cell_str)}], known=["Id", "Name"], extra=["Zzz", "Qq"], lead=["Id", "Name"]),
         "range-dict": dict(cls=[PRange], rules=[{"id": ("Id", X.cell_int), "marks": ("*", X.CellRangeDict(X.cell_int)), "name": ("Name", X.cell_str)}], known=["Id", "Name"],
-                           range=["m1", "m2", "m3"], rkind="dict", lead=["Id"]),
+                           range=["m1", "m2", "m3"], rkind="dict", lead=["Id"], extra=["Zzz"],
+                           orders=[["Id", "m1", "m2", "m3", "", "Zzz", "Name"], ["Id", "", "m1", "m2", "m3", "Name", "Zzz"], ["Zzz", "", "Id", "m1", "m2", "m3", "", "Name"]]),
         "range-set": dict(cls=[PRange], rules=[{"id": ("Id", X.cell_int), "marks": ("*", X.cell_range_set), "name": ("Name", X.cell_str)}], known=["Id", "Name"],
-                          range=["m1", "m2", "m3"], rkind="set", lead=["Id"]),
+                          range=["m1", "m2", "m3"], rkind="set", lead=["Id"], extra=["Zzz"],
+                          orders=[["Id", "m1", "m2", "m3", "", "Zzz", "Name"], ["Name", "m1", "m2", "m3", "", "", "Zzz", "Id"]]),
         "two-classes": dict(cls=[P3, PSecond], rules=[{"id": ("Id", X.cell_int), "name": ("Name", X.cell_str), "flag": ("Flag", X.cell_bool)},
                                                       {"tags": ("Tags", X.cell_set), "flag": ("Flag", X.cell_bool)}], known=["Id", "Name", "Flag", "Tags"], extra=[], lead=["Id", "Name"]),
     }
@@ -134,6 +136,9 @@ def _row_variants(cols: List[str], rs) -> List[List[Any]]:
     pools = []
     for c in cols:
         p = (POOLS_SET if rs.get("rkind") == "set" and c in POOLS_SET else POOLS)[c]
+        if c == "Zzz" and "range" in rs:
+            # next to the ranged group an unknown titled column belongs to the group: its cells must be valid group values
+            p = ["v", None] if rs.get("rkind") == "set" else [None, 7]
         pools.append(p)
     n = max(len(p) for p in pools)
     out = []
@@ -306,7 +311,8 @@ def h_sheet(perm: int, lead_blank: int, offset_i: int, stop_i: int, ladder: bool
             perms = [list(p) for p in itertools.permutations(cols + [""])]
         # deterministic selection of `nperm` permutations spread over the whole list
         step = max(1, len(perms) // nperm)
-        order = perms[(perm * step) % len(perms)]
+        explicit = rs.get("orders", [])
+        order = explicit[perm] if perm < len(explicit) else perms[(perm * step) % len(perms)]
         if order[0] == "" and stop_i == 1:
             return          # 'blank first' with an untitled first column: first cell never holds data
         offset = [0, 1, 23][offset_i]
@@ -328,7 +334,7 @@ def h_sheet(perm: int, lead_blank: int, offset_i: int, stop_i: int, ladder: bool
                         run = (ri + combo[ri]) % 3
                         firstt = next(i for i, t in enumerate(order) if t)
                         for ci in range(firstt, min(len(order), firstt + run)):
-                            lad[ri][ci] = None
+                            lad[ri][ci] = None if (ri + ci) % 2 == 0 else " "
                     grid = [[None] * len(order)] * lead_blank + [list(order)] + lad + [[None] * len(order), ["after", "end"] + [None] * (len(order) - 2)]
                     filled_grid = _fill_down(grid, lead_blank, [])
                     # rows whose key would be empty after filling are outside the claim
